@@ -11,8 +11,13 @@ NumPy for float inputs is an API-level check (DESIGN.md C34).
 Python                                              Lean
 ------                                              ----
 int(max(np.ceil((stop - start) / step), 0))         `arangeNum` (`ceilDivInt`, `Int.toNat`)
-for i, bs in enumerate(chunks[0]): blockstart = …   `arangeBlocks` (elem_count recurrence)
-chunk.arange(blockstart, blockstop, step, bs)       `chunkArange` (`np.arange` then trim to `bs`)
+for i, bs in enumerate(chunks[0]): (offset, bs)     `linspaceOffsets` (elem_count recurrence; shared with linspace)
+chunk.arange_block(start, step, offset, size)       `arangeElem`, `arangeBlockG` (after `fix: da.arange computes every
+                                                    element from its global index`): `first + idx*(second - first)`,
+                                                    index 1 stored as `second`; generic in the arithmetic (`Arith`):
+                                                    `intArith` here, binary64 in Model/CreationFloat.lean
+chunk.arange(blockstart, blockstop, step, bs)       `arangeBlocks`, `chunkArange` (`np.arange` then trim): the fallback of
+                                                    `arange_block` for dtypes without index arithmetic (bool, datetime64)
 linspace: one task per chunk with its global offset  `linspaceOffsets`, `linspaceBlock` (numerators over `div`)
 eye: row_start / col_start / local_k / branch       `eyeBlock`, `eyeTable`
 Import-free (linked into the native driver).
@@ -56,6 +61,39 @@ def arangeValues (start step : Int) (cs : List Nat) : List (List Int) :=
 /-- NumPy's `arange(start, stop, step)` -/
 def arangeSpec (start step : Int) (num : Nat) : List Int :=
   (List.range num).map (fun (i : Nat) => start + (i : Int) * step)
+
+/-! ### arange after `fix: da.arange computes every element from its global index` -/
+
+/-- the arithmetic of the computation dtype (`comp` of `chunk.arange_block`): exact integers, or binary64 -/
+structure Arith (α : Type) where
+  add : α → α → α
+  sub : α → α → α
+  mul : α → α → α
+  /-- `idx.astype(comp)` -/
+  ofIdx : Nat → α
+
+/-- element `i` of the array: `res = first + idx * (second - first)`; `res[1] = second` -/
+def arangeElem {α} (A : Arith α) (first second : α) (i : Nat) : α :=
+  if i = 1 then second else A.add first (A.mul (A.ofIdx i) (A.sub second first))
+
+/-- `chunk.arange_block(start, step, offset, size)` with `first, second = start, start + step` (in `comp`) -/
+def arangeBlockG {α} (A : Arith α) (first second : α) (off size : Nat) : List α :=
+  (List.range size).map (fun (j : Nat) => arangeElem A first second (off + j))
+
+/-- the task loop of `arange`: one `chunk.arange_block` task per chunk with its global `offset` (`elem_count`) -/
+def blockOffsets : Nat → List Nat → List (Nat × Nat)
+  | _, [] => []
+  | off, bs :: rest => (off, bs) :: blockOffsets (off + bs) rest
+
+/-- the computed blocks of `da.arange(start, stop, step, chunks=cs)` -/
+def arangeValuesG {α} (A : Arith α) (first second : α) (cs : List Nat) : List (List α) :=
+  (blockOffsets 0 cs).map (fun p => arangeBlockG A first second p.1 p.2)
+
+def intArith : Arith Int := ⟨(· + ·), (· - ·), (· * ·), fun i => (i : Int)⟩
+
+/-- integer inputs: `first = start`, `second = start + step` -/
+def arangeValuesInt (start step : Int) (cs : List Nat) : List (List Int) :=
+  arangeValuesG intArith start (start + step) cs
 
 /-! ### linspace (numerators over the common denominator `div`) -/
 
